@@ -14,6 +14,11 @@ pub use test::gen_portgraph_connected;
 
 pub(crate) use toposort::{online_toposort, OnlineToposort};
 
+#[cfg(feature = "verif")]
+pub(crate) mod verif_toposort {
+    pub use super::toposort::{online_toposort, OnlineToposort};
+}
+
 /// Sort a vector and return a vector of pairs of the original value and its position.
 #[allow(dead_code)]
 pub(crate) fn sort_with_indices<V: Ord>(vec: impl IntoIterator<Item = V>) -> Vec<(V, usize)> {
